@@ -24,6 +24,9 @@ ASSUMPTIONS = ["np.sign(x) is -1/0/+1; timedelta.total_seconds() is the elapsed 
 
 
 def run(ck, an, tier):
+    from rules import C14 as _c14
+    from sa.report import Renamed as _R
+    _c14.s1(_R(ck, "C14:"), an)      # the rate the broker reads is the rate that was quoted: the book stores a quote as given (a negative rate stays negative)
     fa = an.fa("Broker.accrued_interest")
     subj = fa.f.short
     now_p, accrue_p = fa.f.params[1], fa.f.params[2]
